@@ -11,9 +11,18 @@
 (*       placement    the bytes moved are not the next bytes of the stream, in  *)
 (*                    order, in the caller's buffers (or a byte moved twice)    *)
 (*  C18  nonblock_waited  the kernel was asked again after EAGAIN on a          *)
-(*                        descriptor the caller had made non-blocking           *)
+(*                        descriptor the caller had made non-blocking, or the   *)
+(*                        hook started to wait for its readiness (fd_wait)      *)
 (*       mode_changed     the descriptor's blocking mode after the call differs *)
-(*                        from what the caller set                              *)
+(*                        from what the caller set; in a duplex scenario: once  *)
+(*                        both calls have returned (NioShared!ModeRestored-     *)
+(*                        WhenQuiet)                                            *)
+(*  observations outside the listed properties (duplex scenarios, NioShared):   *)
+(*       blocking_eagain_at_once  a caller that left the descriptor blocking    *)
+(*                        got the kernel's would-block back without any wait    *)
+(*                        (NioShared!CallersModeRespected)                      *)
+(*       asked_blocking   the kernel was asked while the descriptor was         *)
+(*                        blocking (NioShared!NeverAsksBlocking)                *)
 EXTENDS NioOps, FiniteSets, TLC, Json, IOUtils
 
 Rec == ndJsonDeserialize(IOEnv.TRACE)
@@ -23,11 +32,15 @@ EINTR == 4
 ECONNRESET == 104
 
 VARIABLES l, scen, shape, vec, isRead, nonblock, before,
-          total, lastResp, sawBlock, sawEof, nviol
-vars == <<l, scen, shape, vec, isRead, nonblock, before, total, lastResp, sawBlock, sawEof, nviol>>
+          total, lastResp, sawBlock, sawEof, nviol,
+          inCall,   \* between call_b and call_e
+          wWaits,   \* waits of the call's own kind the hook has started during the call
+          readerIn  \* (duplex scenarios) the reader's hooked recv is in progress
+vars == <<l, scen, shape, vec, isRead, nonblock, before, total, lastResp, sawBlock, sawEof, nviol, inCall, wWaits, readerIn>>
 Init == /\ l = 1 /\ scen = 0 /\ shape = <<>> /\ vec = FALSE /\ isRead = TRUE /\ nonblock = FALSE /\ before = FALSE
-        /\ total = 0 /\ lastResp = "none" /\ sawBlock = FALSE /\ sawEof = FALSE /\ nviol = 0
+        /\ total = 0 /\ lastResp = "none" /\ sawBlock = FALSE /\ sawEof = FALSE /\ nviol = 0 /\ inCall = FALSE /\ wWaits = 0 /\ readerIn = FALSE
 Viol(clause, detail) == PrintT(<<"VIOL", l, clause, scen, detail>>)
+vars2 == <<scen, shape, vec, isRead, nonblock, before, total, lastResp, sawBlock, sawEof, nviol, inCall, wWaits, readerIn>>
 Count(b) == IF b THEN 1 ELSE 0
 Triples(iov) == [i \in DOMAIN iov |-> <<iov[i][1], iov[i][2], iov[i][3]>>]
 
@@ -37,23 +50,41 @@ Step ==
      CASE ev = "nreset" ->
             /\ scen' = r.scenario /\ shape' = r.shape /\ vec' = r.vec /\ isRead' = r.isRead /\ nonblock' = r.nonblock
             /\ total' = 0 /\ lastResp' = "none" /\ sawBlock' = FALSE /\ sawEof' = FALSE /\ before' = r.nonblock
+            /\ inCall' = FALSE /\ wWaits' = 0 /\ readerIn' = FALSE
             /\ UNCHANGED nviol
-       [] ev = "call_b" -> before' = r.fl_nonblock /\ UNCHANGED <<scen, shape, vec, isRead, nonblock, total, lastResp, sawBlock, sawEof, nviol>>
+       [] ev = "call_b" -> before' = r.fl_nonblock /\ inCall' = TRUE /\ wWaits' = 0
+                           /\ UNCHANGED <<scen, shape, vec, isRead, nonblock, total, lastResp, sawBlock, sawEof, nviol, readerIn>>
+       [] ev = "fd_wait" ->
+            LET mine == inCall /\ r.own /\ r.kind = (IF isRead THEN "r" ELSE "w")
+                b1 == mine /\ nonblock
+            IN /\ (b1 => Viol("nonblock_waited", <<total, "wait for readiness">>))
+               /\ nviol' = nviol + Count(b1)
+               /\ wWaits' = wWaits + Count(mine)
+               /\ UNCHANGED <<scen, shape, vec, isRead, nonblock, before, total, lastResp, sawBlock, sawEof, inCall, readerIn>>
+       [] ev \in {"rd_b", "rd_e"} -> /\ readerIn' = (ev = "rd_b")
+                                     /\ UNCHANGED <<scen, shape, vec, isRead, nonblock, before, total, lastResp, sawBlock, sawEof, nviol, inCall, wWaits>>
+       [] ev = "quiet" ->
+            LET b1 == r.fl_nonblock # nonblock
+            IN /\ (b1 => Viol("mode_changed", <<"both calls have returned", nonblock, r.fl_nonblock>>))
+               /\ nviol' = nviol + Count(b1)
+               /\ UNCHANGED <<scen, shape, vec, isRead, nonblock, before, total, lastResp, sawBlock, sawEof, inCall, wWaits, readerIn>>
        [] ev = "inner" ->
             LET got == NonEmpty(Triples(r.iov))
                 want == NonEmpty(Remainder(shape, total))
                 b1 == got # want
                 b2 == vec /\ r.cnt # Len(r.iov)
                 b3 == nonblock /\ sawBlock
+                b4 == ~r.fl_nonblock
             IN /\ (b1 => Viol("iov_range", <<total, Triples(r.iov), Remainder(shape, total)>>))
                /\ (b2 => Viol("iov_count", <<r.cnt, Len(r.iov)>>))
                /\ (b3 => Viol("nonblock_waited", <<total>>))
-               /\ nviol' = nviol + Count(b1) + Count(b2) + Count(b3)
-               /\ UNCHANGED <<scen, shape, vec, isRead, nonblock, before, total, lastResp, sawBlock, sawEof>>
+               /\ (b4 => Viol("asked_blocking", <<total>>))
+               /\ nviol' = nviol + Count(b1) + Count(b2) + Count(b3) + Count(b4)
+               /\ UNCHANGED <<scen, shape, vec, isRead, nonblock, before, total, lastResp, sawBlock, sawEof, inCall, wWaits, readerIn>>
        [] ev = "inner_r" ->
             /\ total' = total + r.n /\ lastResp' = r.resp
             /\ sawBlock' = (sawBlock \/ r.resp = "wouldblock") /\ sawEof' = (sawEof \/ r.resp = "eof")
-            /\ UNCHANGED <<scen, shape, vec, isRead, nonblock, before, nviol>>
+            /\ UNCHANGED <<scen, shape, vec, isRead, nonblock, before, nviol, inCall, wWaits, readerIn>>
        [] ev = "call_e" ->
             LET sum == SumSeq(shape)
                 b1 == total > 0 /\ r.ret # total /\ r.ret # -1
@@ -66,7 +97,11 @@ Step ==
                          \/ (lastResp = "wouldblock" /\ r.errno = EAGAIN)
                          \/ (lastResp = "intr" /\ r.errno \in {EINTR, EAGAIN}) )
                 b6 == IF isRead THEN Concat(r.bufs) # Expected(shape, total) ELSE ~PrefixOK(r.sent, total)
-                b7 == r.fl_nonblock # before
+                \* (while the reader of a duplex scenario is still in its call the descriptor may be forced non-blocking)
+                b7 == ~readerIn /\ r.fl_nonblock # nonblock
+                \* the caller left the descriptor blocking, the kernel said "would block", and the call came back
+                \* with that answer without having waited even once
+                b8 == ~nonblock /\ lastResp = "wouldblock" /\ wWaits = 0
             IN /\ (b1 => Viol("ret_total", <<r.ret, total>>))
                /\ (b2 => Viol("ret_minus1", <<r.ret, total>>))
                /\ (b3 => Viol("zero_len", <<r.ret>>))
@@ -74,11 +109,13 @@ Step ==
                /\ (b5 => Viol("errno", <<r.errno, lastResp>>))
                /\ (b6 => Viol("placement", <<total, IF isRead THEN Concat(r.bufs) ELSE r.sent>>))
                /\ (b7 => Viol("mode_changed", <<before, r.fl_nonblock>>))
-               /\ nviol' = nviol + Count(b1) + Count(b2) + Count(b3) + Count(b4) + Count(b5) + Count(b6) + Count(b7)
-               /\ UNCHANGED <<scen, shape, vec, isRead, nonblock, before, total, lastResp, sawBlock, sawEof>>
+               /\ (b8 => Viol("blocking_eagain_at_once", <<r.ret, r.errno>>))
+               /\ nviol' = nviol + Count(b1) + Count(b2) + Count(b3) + Count(b4) + Count(b5) + Count(b6) + Count(b7) + Count(b8)
+               /\ inCall' = FALSE
+               /\ UNCHANGED <<scen, shape, vec, isRead, nonblock, before, total, lastResp, sawBlock, sawEof, wWaits, readerIn>>
        [] ev = "died" -> /\ Viol(r.how, r.msg) /\ nviol' = nviol + 1
-                         /\ UNCHANGED <<scen, shape, vec, isRead, nonblock, before, total, lastResp, sawBlock, sawEof>>
-       [] ev = "nend" -> UNCHANGED <<scen, shape, vec, isRead, nonblock, before, total, lastResp, sawBlock, sawEof, nviol>>
+                         /\ UNCHANGED <<scen, shape, vec, isRead, nonblock, before, total, lastResp, sawBlock, sawEof, inCall, wWaits, readerIn>>
+       [] ev = "nend" -> UNCHANGED vars2
 Spec == Init /\ [][Step]_vars
 Accepted == /\ PrintT(<<"ACCEPT", TLCGet("stats").diameter - 1, N>>)
             /\ TLCGet("stats").diameter - 1 = N
